@@ -2011,7 +2011,9 @@ impl Gen {
         for dn in dnames.into_iter().take(n_dims) {
             let ordered = self.rng.chance(1, 2);
             ops.push(Op::AddDim { name: dn.to_string(), ordered });
-            let n_attrs = self.rng.range(1, p.max_attrs);
+            // keep |Ω| below a few hundred rights: four dimensions get at most three attributes each
+            let cap = if n_dims >= 4 { p.max_attrs.min(3) } else { p.max_attrs };
+            let n_attrs = self.rng.range(1, cap);
             let mut anames: Vec<&str> = Self::attr_names(p).to_vec();
             self.rng.shuffle(&mut anames);
             let mut placed: Vec<String> = vec![];
